@@ -320,7 +320,10 @@ func (vm *simVM) spawn(inc *incarnation, uuid string, now time.Time) *simProc {
 	if len(others) > 0 {
 		o := others[0]
 		sig := "two-live-processes"
-		if s.staleUnlock[uuid] {
+		if s.staleUnlock[uuid] && s.staleUnlockEarly[uuid] {
+			// not the give-up path: every worker had left state Unknown, yet the process was not known
+			sig = "fixStaleLocks-released-a-lock-before-its-timeout-while-process-alive"
+		} else if s.staleUnlock[uuid] {
 			sig = "fixStaleLocks-gave-up-while-process-alive"
 		} else if o.byInc != inc.n && !inc.listed[string(o.vm.in.id)] {
 			// the new dispatcher has not yet received a single crunch-run --list answer from the
